@@ -15,19 +15,25 @@ import (
 	"bufio"
 	"bytes"
 	"encoding/json"
+	"errors"
 	"fmt"
 	"io"
 	"math/rand"
+	"net"
 	"net/http"
 	"net/textproto"
 	"os"
 	"strings"
 	"testing"
+	"time"
+
+	"github.com/valyala/fasthttp/fasthttputil"
 )
 
 type c05Vec struct {
 	Rec              string   `json:"rec"`
 	Sender           bool     `json:"sender"`
+	Encoded          bool     `json:"encoded"`
 	Slot             string   `json:"slot"`
 	Kind             string   `json:"kind"`
 	Side             string   `json:"side"`
@@ -79,6 +85,7 @@ var c05Field = map[string]string{
 	"ReqSetHost": "Host", "ReqSetHostViaSet": "Host", "ReqSetUserAgent": "User-Agent", "ReqSetUserAgentViaSet": "User-Agent",
 	"ReqSetContentType": "Content-Type", "ReqSetBoundary": "Content-Type", "ReqSetReferer": "Referer",
 	"ReqSetContentEncoding": "Content-Encoding", "ReqSetTrailer": "Trailer",
+	"ReqURISetHost": "Host", "ReqSetHostURI": "Host", "ReqURISetUsername": "Authorization",
 	"RespSetValue": "X-V", "RespAddValue": "X-V", "RespSetCanonicalValue": "X-V",
 	"RespSetContentType": "Content-Type", "RespSetServer": "Server", "RespSetServerViaSet": "Server",
 	"RespSetContentEncoding": "Content-Encoding", "RespSetTrailer": "Trailer",
@@ -92,19 +99,80 @@ var c05ValuePrefix = map[string]string{
 var c05Defaults = map[string]bool{
 	"Host": true, "User-Agent": true, "Content-Type": true, "Content-Length": true, "Transfer-Encoding": true,
 	"Trailer": true, "Server": true, "Date": true, "Connection": true, "X-Before": true, "X-After": true,
+	"Authorization": false,
 }
 
 // c05Build builds the message with `in` in the slot and serialises it. rejected = the sender
 // refused (setter error or Write error).
-func c05Build(v *c05Vec, in []byte) (wire []byte, rejected bool, why string) {
+// c05URISlots take the request target / Host from the request's URI object: the request is
+// created from an absolute URI and no Host header is set by hand.
+var c05URISlots = map[string]bool{
+	"ReqURISetQueryString": true, "ReqURISetQueryStringBytes": true, "ReqURIQueryArgsSet": true, "ReqURISetPath": true,
+	"ReqURISetPathRaw": true, "ReqURISetHash": true, "ReqURIUpdate": true, "ReqURISetHost": true, "ReqSetHostURI": true,
+	"ReqURISetUsername": true,
+}
+
+// c05ViaClient sends req with a HostClient over an in-memory connection whose far end records
+// every byte up to the end of the body (or the close) and answers 200.
+func c05ViaClient(req *Request) (wire []byte, rejected bool, why string) {
+	pc := fasthttputil.NewPipeConns()
+	got := make(chan []byte, 1)
+	go func() {
+		c := pc.Conn2()
+		defer c.Close()
+		c.SetDeadline(time.Now().Add(60 * time.Second)) //nolint:errcheck
+		var raw []byte
+		buf := make([]byte, 4096)
+		for !bytes.HasSuffix(raw, []byte("BODY")) {
+			n, err := c.Read(buf)
+			raw = append(raw, buf[:n]...)
+			if err != nil {
+				got <- raw
+				return
+			}
+		}
+		got <- raw
+		c.Write([]byte("HTTP/1.1 200 OK\r\nContent-Length: 0\r\n\r\n")) //nolint:errcheck
+	}()
+	dialed := false
+	hc := &HostClient{Addr: "example.com:80", Dial: func(string) (net.Conn, error) {
+		if dialed {
+			return nil, errors.New("c05: one connection only")
+		}
+		dialed = true
+		return pc.Conn1(), nil
+	}, ReadTimeout: 60 * time.Second, WriteTimeout: 60 * time.Second}
+	var resp Response
+	err := hc.Do(req, &resp)
+	pc.Conn1().Close()
+	hc.CloseIdleConnections()
+	if !dialed {
+		pc.Conn2().Close()
+		<-got
+		return nil, true, fmt.Sprint("HostClient.Do: ", err)
+	}
+	raw := <-got
+	if len(raw) == 0 && err != nil {
+		return nil, true, fmt.Sprint("HostClient.Do: ", err)
+	}
+	return raw, false, ""
+}
+
+// c05Build builds the message with `in` in the slot and serialises it (requests optionally
+// through a client). rejected = the sender refused (setter error or Write error).
+func c05Build(v *c05Vec, in []byte, viaClient bool) (wire []byte, rejected bool, why string) {
 	var buf bytes.Buffer
 	bw := bufio.NewWriter(&buf)
 	s := string(in)
 	if v.Side == "req" {
 		var req Request
 		req.Header.SetMethod("POST")
-		req.SetRequestURI("/p")
-		req.Header.SetHost("example.com")
+		if c05URISlots[v.Slot] {
+			req.SetRequestURI("http://example.com/p")
+		} else {
+			req.SetRequestURI("/p")
+			req.Header.SetHost("example.com")
+		}
 		req.Header.Set("X-Before", "b")
 		h := &req.Header
 		chunked := false
@@ -150,6 +218,28 @@ func c05Build(v *c05Vec, in []byte) (wire []byte, rejected bool, why string) {
 			if err := h.SetTrailer(s); err != nil {
 				return nil, true, "SetTrailer: " + err.Error()
 			}
+		case "ReqURISetQueryString":
+			req.URI().SetQueryString(s)
+		case "ReqURISetQueryStringBytes":
+			req.URI().SetQueryStringBytes(in)
+		case "ReqURIQueryArgsSet":
+			req.URI().QueryArgs().Set("k", s)
+		case "ReqURISetPath":
+			req.URI().SetPath("/p" + s)
+		case "ReqURISetPathRaw":
+			req.URI().DisablePathNormalizing = true
+			req.URI().SetPath("/p" + s)
+		case "ReqURISetHash":
+			req.URI().SetHash(s)
+		case "ReqURIUpdate":
+			req.URI().Update(s)
+		case "ReqURISetHost":
+			req.URI().SetHost(s)
+		case "ReqSetHostURI":
+			req.SetHost(s)
+		case "ReqURISetUsername":
+			req.URI().SetUsername(s)
+			req.URI().SetPassword("pw")
 		default:
 			return nil, true, "c05: unknown slot " + v.Slot
 		}
@@ -158,6 +248,9 @@ func c05Build(v *c05Vec, in []byte) (wire []byte, rejected bool, why string) {
 			req.SetBodyStream(strings.NewReader("BODY"), -1)
 		} else {
 			req.SetBodyString("BODY")
+		}
+		if viaClient {
+			return c05ViaClient(&req)
 		}
 		if err := req.Write(bw); err != nil {
 			return nil, true, "Request.Write: " + err.Error()
@@ -355,6 +448,7 @@ func TestVerifC05Serialize(t *testing.T) {
 		vfViol(key, fmt.Sprintf("%s(%q): %s", v.Slot, in, fmt.Sprintf(f, a...)), vfRec{"vector": v, "input": fmt.Sprintf("%q", in)})
 	}
 	baseLines := map[string]int{}
+	clientEvery := vfEnvInt("VERIF_C05_CLIENT_EVERY", 4)
 	// the vector file lists the slots first, then one vector per (kind, class string); every
 	// vector is applied to every slot of its kind
 	var slots []c05Vec
@@ -377,7 +471,7 @@ func TestVerifC05Serialize(t *testing.T) {
 				continue
 			}
 			v := kv
-			v.Slot, v.Side, v.Sender = sl.Slot, sl.Side, sl.Sender
+			v.Slot, v.Side, v.Sender, v.Encoded = sl.Slot, sl.Side, sl.Sender, sl.Encoded
 			v.SenderMustReject = sl.Sender && kv.SenderMustReject
 			all = append(all, v)
 		}
@@ -399,132 +493,175 @@ func TestVerifC05Serialize(t *testing.T) {
 		if evals%4000 == 1 {
 			vfSample(vfRec{"slot": v.Slot, "input": fmt.Sprintf("%q", in), "expect": fmt.Sprintf("%q", expect), "deliverable": v.Deliverable})
 		}
-		if _, ok := baseLines[v.Slot]; !ok {
-			bw, rej, why := c05Build(&v, c05Benign(v.Kind))
-			if rej {
-				vfInfra("c05: baseline of " + v.Slot + " rejected: " + why)
-				continue
+		judge := func(bind string, viaClient bool) {
+			if _, ok := baseLines[v.Slot+bind]; !ok {
+				bw, rej, why := c05Build(&v, c05Benign(v.Kind), viaClient)
+				if rej {
+					vfInfra("c05: baseline of " + v.Slot + bind + " rejected: " + why)
+					return
+				}
+				l, _ := c05HeadLines(bw)
+				baseLines[v.Slot+bind] = len(l)
 			}
-			l, _ := c05HeadLines(bw)
-			baseLines[v.Slot] = len(l)
-		}
-		wire, rejected, _ := c05Build(&v, in)
-		if rejected {
-			stats["rejected_by_sender"]++
-			continue
-		}
-		// (1) structure of the head
-		lines, _ := c05HeadLines(wire)
-		for _, l := range lines {
-			if bytes.ContainsAny(l, "\r\n") {
-				viol(&v, "bare-cr-or-lf-in-head", in, "line %q contains a bare CR or LF", l)
-				break
+			wire, rejected, _ := c05Build(&v, in, viaClient)
+			if rejected {
+				stats["rejected_by_sender"+bind]++
+				return
 			}
-		}
-		if len(lines) > baseLines[v.Slot] {
-			viol(&v, "line-added", in, "the head has %d lines, %d with a benign input: %q", len(lines), baseLines[v.Slot], wire)
-		}
-		field := c05Field[v.Slot]
-		wantValue := c05ValuePrefix[v.Slot] + string(expect)
-		if c05ValuePrefix[v.Slot] != "" {
-			wantValue = strings.Trim(c05ValuePrefix[v.Slot]+string(neutral), " ")
-		}
-		trace := false // does the input leave a trace in the message?
-		// (2) peers
-		accepted := 0
-		for _, peer := range []string{"net/http", "fasthttp"} {
-			var seen *c05Seen
-			var err error
-			if peer == "net/http" {
-				seen, err = c05NetHTTP(v.Side, wire)
+			field := c05Field[v.Slot]
+			// a client rebuilds the request target and Host from the URI it derives from the Host
+			// value and the request URI: for inputs feeding that URI only the structure is judged
+			feedsURI := c05URISlots[v.Slot] || field == "Host" || v.Kind == "uri"
+			exact := !v.Encoded && !(viaClient && feedsURI)
+			// (1) structure of the head
+			lines, _ := c05HeadLines(wire)
+			for _, l := range lines {
+				if bytes.ContainsAny(l, "\r\n") {
+					viol(&v, "bare-cr-or-lf-in-head"+bind, in, "line %q contains a bare CR or LF", l)
+					break
+				}
+			}
+			nl := len(lines)
+			if feedsURI {
+				for _, l := range lines {
+					if bytes.HasPrefix(l, []byte("Authorization: Basic ")) {
+						nl-- // derived from the userinfo of the URI the input feeds
+						break
+					}
+				}
+			}
+			if nl > baseLines[v.Slot+bind] {
+				viol(&v, "line-added"+bind, in, "the head has %d lines, %d with a benign input: %q", len(lines), baseLines[v.Slot+bind], wire)
+			}
+			wantValue := c05ValuePrefix[v.Slot] + string(expect)
+			if c05ValuePrefix[v.Slot] != "" {
+				wantValue = strings.Trim(c05ValuePrefix[v.Slot]+string(neutral), " ")
+			}
+			trace := false // does the input leave a trace in the message?
+			// (2) peers
+			accepted := 0
+			for _, peer := range []string{"net/http", "fasthttp"} {
+				var seen *c05Seen
+				var err error
+				if peer == "net/http" {
+					seen, err = c05NetHTTP(v.Side, wire)
+				} else {
+					seen, err = c05Fasthttp(v.Side, wire)
+				}
+				if err != nil {
+					stats["refused_by_"+peer]++
+					continue
+				}
+				accepted++
+				cat := func(c string) string { return peer + ":" + c + bind }
+				if string(seen.body) != "BODY" {
+					viol(&v, cat("body-boundary"), in, "the peer's body is %q; wire %q", seen.body, wire)
+				}
+				if seen.rest != 0 {
+					viol(&v, cat("second-message"), in, "%d bytes follow the message; wire %q", seen.rest, wire)
+				}
+				allowed := func(n string) bool {
+					if c05Defaults[n] || (field != "" && n == c05Canon(field)) {
+						return true
+					}
+					if n == "Authorization" && feedsURI {
+						return true // derived from the userinfo of the URI the input feeds
+					}
+					if v.Kind == "trailer" && n == c05Canon(string(expect)) {
+						return true // the announced trailer field itself
+					}
+					// optional whitespace between the name and the colon is not part of the name
+					return v.Kind == "name" && (n == c05Canon(string(neutral)) || n == c05Canon(strings.TrimRight(string(neutral), " ")))
+				}
+				for n := range seen.names {
+					if !allowed(n) {
+						viol(&v, cat("unexpected-field-name"), in, "the peer sees field %q which was never set; wire %q", n, wire)
+					}
+				}
+				if b := seen.names["X-Before"]; len(b) != 1 || b[0] != "b" {
+					viol(&v, cat("neighbour-changed"), in, "X-Before is %q, set to \"b\"; wire %q", b, wire)
+				}
+				if a := seen.names["X-After"]; len(a) != 1 || a[0] != "a" {
+					viol(&v, cat("neighbour-changed"), in, "X-After is %q, set to \"a\"; wire %q", a, wire)
+				}
+				if v.Side == "req" {
+					if v.Kind != "method" && seen.method != "POST" {
+						viol(&v, cat("request-line-altered"), in, "method %q, set to POST; wire %q", seen.method, wire)
+					}
+					if v.Kind != "proto" && seen.proto != "HTTP/1.1" {
+						viol(&v, cat("request-line-altered"), in, "protocol %q, never set; wire %q", seen.proto, wire)
+					}
+					if v.Kind != "uri" && v.Kind != "uripart" && !(viaClient && feedsURI) && seen.uri != "/p" {
+						viol(&v, cat("request-line-altered"), in, "request target %q, set to /p; wire %q", seen.uri, wire)
+					}
+					if v.Kind == "uripart" && !strings.HasPrefix(seen.uri, "/") && v.Slot != "ReqURIUpdate" {
+						viol(&v, cat("request-line-altered"), in, "request target %q does not start with the path; wire %q", seen.uri, wire)
+					}
+					if h := seen.names["Host"]; !feedsURI && (len(h) != 1 || h[0] != "example.com") {
+						viol(&v, cat("neighbour-changed"), in, "Host is %q, set to example.com; wire %q", h, wire)
+					}
+				} else if v.Kind != "rproto" && seen.proto != "HTTP/1.1" {
+					viol(&v, cat("start-line-altered"), in, "protocol %q, never set; wire %q", seen.proto, wire)
+				}
+				switch v.Kind {
+				case "value":
+					got, present := seen.names[c05Canon(field)]
+					if present {
+						trace = true
+					}
+					if present && wantValue != "" && exact && (len(got) != 1 || got[0] != wantValue) {
+						viol(&v, cat("value-not-delivered"), in, "%s is %q, neutralised input %q; wire %q", field, got, wantValue, wire)
+					}
+					if !present && wantValue != "" && exact && field != "Content-Type" && field != "User-Agent" {
+						viol(&v, cat("value-dropped"), in, "%s is absent, neutralised input %q; wire %q", field, wantValue, wire)
+					}
+				case "name":
+					if got, present := seen.names[c05Canon(string(neutral))]; present {
+						trace = true
+						if len(got) != 1 || got[0] != "v" {
+							viol(&v, cat("name-not-delivered"), in, "field %q has values %q, set to \"v\"; wire %q", neutral, got, wire)
+						}
+					}
+				case "trailer":
+					if got, present := seen.names["Trailer"]; present {
+						trace = true
+						if !v.Wellformed || len(got) != 1 || !strings.EqualFold(got[0], string(expect)) {
+							viol(&v, cat("trailer-announcement"), in, "Trailer is %q for the input %q; wire %q", got, in, wire)
+						}
+					}
+				case "method":
+					if len(expect) > 0 && seen.method != string(expect) { // an empty input selects the default
+						viol(&v, cat("request-line-altered"), in, "method %q, neutralised input %q; wire %q", seen.method, expect, wire)
+					}
+				case "uri":
+					if len(expect) > 0 && exact && seen.uri != string(expect) {
+						viol(&v, cat("request-line-altered"), in, "request target %q, neutralised input %q; wire %q", seen.uri, expect, wire)
+					}
+				case "proto", "rproto":
+					if len(expect) > 0 && seen.proto != string(expect) {
+						viol(&v, cat("start-line-altered"), in, "protocol %q, neutralised input %q; wire %q", seen.proto, expect, wire)
+					}
+				case "reason":
+					if len(expect) > 0 && seen.reason != string(expect) {
+						viol(&v, cat("reason-not-delivered"), in, "reason %q, neutralised input %q; wire %q", seen.reason, expect, wire)
+					}
+				}
+			}
+			if accepted == 0 {
+				stats["refused_by_all_peers"+bind]++
+				stats["refused_by_all_peers:"+v.Kind+bind]++
 			} else {
-				seen, err = c05Fasthttp(v.Side, wire)
+				stats["accepted_by_a_peer:"+v.Kind+bind]++
 			}
-			if err != nil {
-				stats["refused_by_"+peer]++
-				continue
+			if v.SenderMustReject && trace {
+				viol(&v, "sender-did-not-reject"+bind, in, "the input cannot be carried in this slot, the setter accepted it and it shows in the message: %q", wire)
 			}
-			accepted++
-			cat := func(c string) string { return peer + ":" + c }
-			if string(seen.body) != "BODY" {
-				viol(&v, cat("body-boundary"), in, "the peer's body is %q; wire %q", seen.body, wire)
-			}
-			if seen.rest != 0 {
-				viol(&v, cat("second-message"), in, "%d bytes follow the message; wire %q", seen.rest, wire)
-			}
-			allowed := func(n string) bool {
-				if c05Defaults[n] || (field != "" && n == c05Canon(field)) {
-					return true
-				}
-				if v.Kind == "trailer" && n == c05Canon(string(expect)) {
-					return true // the announced trailer field itself
-				}
-				// optional whitespace between the name and the colon is not part of the name
-				return v.Kind == "name" && (n == c05Canon(string(neutral)) || n == c05Canon(strings.TrimRight(string(neutral), " ")))
-			}
-			for n := range seen.names {
-				if !allowed(n) {
-					viol(&v, cat("unexpected-field-name"), in, "the peer sees field %q which was never set; wire %q", n, wire)
-				}
-			}
-			if b := seen.names["X-Before"]; len(b) != 1 || b[0] != "b" {
-				viol(&v, cat("neighbour-changed"), in, "X-Before is %q, set to \"b\"; wire %q", b, wire)
-			}
-			if a := seen.names["X-After"]; len(a) != 1 || a[0] != "a" {
-				viol(&v, cat("neighbour-changed"), in, "X-After is %q, set to \"a\"; wire %q", a, wire)
-			}
-			switch v.Kind {
-			case "value":
-				got, present := seen.names[c05Canon(field)]
-				if present {
-					trace = true
-				}
-				if present && wantValue != "" && (len(got) != 1 || got[0] != wantValue) {
-					viol(&v, cat("value-not-delivered"), in, "%s is %q, neutralised input %q; wire %q", field, got, wantValue, wire)
-				}
-				if !present && wantValue != "" && field != "Content-Type" && field != "User-Agent" {
-					viol(&v, cat("value-dropped"), in, "%s is absent, neutralised input %q; wire %q", field, wantValue, wire)
-				}
-			case "name":
-				if got, present := seen.names[c05Canon(string(neutral))]; present {
-					trace = true
-					if len(got) != 1 || got[0] != "v" {
-						viol(&v, cat("name-not-delivered"), in, "field %q has values %q, set to \"v\"; wire %q", neutral, got, wire)
-					}
-				}
-			case "trailer":
-				if got, present := seen.names["Trailer"]; present {
-					trace = true
-					if !v.Wellformed || len(got) != 1 || !strings.EqualFold(got[0], string(expect)) {
-						viol(&v, cat("trailer-announcement"), in, "Trailer is %q for the input %q; wire %q", got, in, wire)
-					}
-				}
-			case "method":
-				if len(expect) > 0 && seen.method != string(expect) { // an empty input selects the default
-					viol(&v, cat("request-line-altered"), in, "method %q, neutralised input %q; wire %q", seen.method, expect, wire)
-				}
-			case "uri":
-				if len(expect) > 0 && seen.uri != string(expect) {
-					viol(&v, cat("request-line-altered"), in, "request target %q, neutralised input %q; wire %q", seen.uri, expect, wire)
-				}
-			case "proto", "rproto":
-				if len(expect) > 0 && seen.proto != string(expect) {
-					viol(&v, cat("start-line-altered"), in, "protocol %q, neutralised input %q; wire %q", seen.proto, expect, wire)
-				}
-			case "reason":
-				if len(expect) > 0 && seen.reason != string(expect) {
-					viol(&v, cat("reason-not-delivered"), in, "reason %q, neutralised input %q; wire %q", seen.reason, expect, wire)
-				}
-			}
+
 		}
-		if accepted == 0 {
-			stats["refused_by_all_peers"]++
-			stats["refused_by_all_peers:"+v.Kind]++
-		} else {
-			stats["accepted_by_a_peer:"+v.Kind]++
-		}
-		if v.SenderMustReject && trace {
-			viol(&v, "sender-did-not-reject", in, "the input cannot be carried in this slot, the setter accepted it and it shows in the message: %q", wire)
+		judge("", false)
+		if v.Side == "req" && v.Kind != "trailer" && (c05URISlots[v.Slot] || v.Kind == "uri" || rng.Intn(clientEvery) == 0) {
+			evals++
+			judge("@client", true)
 		}
 	}
 	vfStat(evals, nontriv, vfRec{"c05_outcomes": stats})
